@@ -102,7 +102,9 @@ func TestC13Snapshot(t *testing.T) {
 		defer mc.Close()
 		defer mc.Guard(t)
 		defer column.SetVerifHook(nil)
-		cfg := TxnCfg{Prop: "C13", MaxSteps: 4, Deletes: true, Inserts: true, Merges: true, NoStoreOnDel: KFActive("f11-store-and-delete-same-txn"), NoOpAfterLenMerge: KFActive("f15-difflen-merge-reorder")}
+		// key operations over the small key alphabet: a key may be deleted in one block and come back in
+		// another one while the snapshot is in progress (the blocks' cuts then disagree about who holds it)
+		cfg := TxnCfg{Prop: "C13", MaxSteps: 4, Deletes: true, Inserts: true, Merges: true, KeyOps: sch.Key >= 0, NoStoreOnDel: KFActive("f11-store-and-delete-same-txn"), NoOpAfterLenMerge: KFActive("f15-difflen-merge-reorder")}
 		// layout: 0..3 blocks, thinned so that the file stays small
 		switch rapid.IntRange(0, 4).Draw(t, "layout") {
 		case 0:
@@ -265,6 +267,7 @@ func TestC13Snapshot(t *testing.T) {
 			junction = streams[1]
 		}
 		for _, n := range truncationOffsets(t, data, 150) {
+			mc.beat()
 			got, rerr, bad := restore(data[:n])
 			what := fmt.Sprintf("Restore of the first %d of %d bytes (state/log junction at %d)", n, len(data), junction)
 			if bad != "" {
